@@ -26,7 +26,7 @@ FUNCTIONS = ['pymeeus/Sun.py:Sun.get_equinox_solstice', 'pymeeus/Sun.py:Sun.equa
              'pymeeus/Epoch.py:Epoch.__iadd__', 'pymeeus/Epoch.py:Epoch.__isub__']
 
 MANIFEST = dict(
-    text=("Lean 4 theorems (Props/C14.lean, 20) about the real-arithmetic model of Sun.get_equinox_solstice, "
+    text=("Lean 4 theorems (Props/C14.lean, 21) about the real-arithmetic model of Sun.get_equinox_solstice, "
           "Sun.equation_of_time, Epoch.rise_set and times_rise_transit_set: ValueError exactly outside years "
           "-1000..3000 and for a bad target, Meeus' tables 27.A/27.B selected as documented; for ANY solar "
           "longitude function, if the season loop exits the returned instant is the last one the longitude was "
@@ -34,8 +34,8 @@ MANIFEST = dict(
           "correctness only); the equation-of-time (minutes, seconds) recombine to |E| with the sign on the minutes "
           "(lost below one minute), and its +-180 degree reduction is proved to be the identity on Angles, i.e. NOT to "
           "reduce (counterexample theorem; known finding); rise <= transit <= set whenever the acos argument is in "
-          "[-1,1], which is proved under |lat| + 23.44 + 0.83 + dip <= 90 degrees and refuted at latitude 66.5 (known "
-          "finding); times_rise_transit_set returns no times iff the body at its middle position never reaches h0. "
+          "[-1,1], which is proved under |lat| + 23.44 + 0.83 + dip <= 90 degrees and proved to fail whenever lat + declination "
+          "> 90 - 0.83 - dip, e.g. at latitude 66.5 (known finding); times_rise_transit_set returns no times iff the body at its middle position never reaches h0. "
           "The model's binary64 instantiation agrees with CPython bit for bit on every sampled call (the season loop "
           "fed the solar longitudes the implementation saw). All numerical clauses (1e-5 degree, 88-95 d, "
           "365.2-365.3 d, 25/17.5 min, 45 s/day, 1 degree, 0.005 degree) are measured on the implementation, not "
@@ -308,7 +308,9 @@ def check_rise_set(ctx, Sun, Epoch, Angle, C, y, mo, d, lat, lon, alt, klass):
     am, hm = sun_altitude(Sun, Epoch, Angle, C, mid, lat, lon)
     tr = mid - hm / 360.985647
     at, ht = sun_altitude(Sun, Epoch, Angle, C, tr, lat, lon)
-    ok = (r < tr < s) and abs(ht) < 0.01 and hr < 0.0 < hs and (s - r) < 1.0
+    # tr is an upper transit (hour angle 0 to 0.01 degree); hour angles at rise/set are reported, not tested:
+    # near a midnight sun they sit at -180/+180 degrees and wrap
+    ok = (r < tr < s) and abs(ht) < 0.01 and (s - r) < 1.0
     ctx.predicate('rise_before_transit_before_set', ok, inp,
                   {'rise': r, 'transit': tr, 'set': s, 'ha_rise': hr, 'ha_transit': ht, 'ha_set': hs}, klass)
 
